@@ -231,6 +231,23 @@ PROPS["C19"] = {
     "assumptions": COMMON_ASSUMPTIONS + ["no reference oracle is used here: a defect that is invariant under renaming and respects the laws is invisible to this check (C01-C05 cover those on small inputs)"],
 }
 
+PROPS["C20"] = {
+    "harness": "c20",
+    "custom": "c20",
+    "quick": {"workers": 8, "cases": 300, "size": 36, "min_records": 30, "lib_timeout": 20, "reuse_scale": 0.1, "fuzz_jobs": 4, "fuzz_seconds": 60,
+              "memcheck_generated": 100, "memcheck_corpus": 60},
+    "thorough": {"workers": 16, "cases": 4000, "size": 50, "min_records": 34, "lib_timeout": 30, "reuse_scale": 0.5, "fuzz_jobs": 16, "fuzz_seconds": 600,
+                 "memcheck_generated": 400, "memcheck_corpus": 1200},
+    "min_nontrivial_frac": 0.1,
+    "rule": "(0) every other harness (C01-C19) re-run in sanitizer-only mode on a fraction of its budget (semantic oracles ignored, a sanitizer report or crash in a library call is the only failure); (a) generated workloads "
+            "mixing the explicit tree, explicit word, BDD bottom-up and BDD top-down encodings in one process: load/build with dense/sparse/disjoint numbers, copies, assignment, Union, UnionDisjointStates (only on disjoint state sets), "
+            "Intersection(BU), trimming, Reduce, Complement, GetCandidateTree, downward simulation (CLI re-indexing), upward simulation (only on reference-trimmed dense input), all 8 explicit / 2 BU / 2 TD / 3 FA inclusion selections through "
+            "their protocols, FA Reverse and witness, the CLI dictionary helpers after -s/-p pruning, dumps, destruction in between - under ASan+UBSan; (b) the same workload decoded from bytes in a structure-aware libFuzzer target, seeded "
+            "with generated workloads; (c) generated workloads, the largest fuzz corpus inputs and the committed regression inputs replayed under valgrind memcheck on a build without sanitizers (uninitialised values, which ASan/UBSan "
+            "cannot see). Leak detection is off (leaks are not in the property). Non-trivial (a): >= 6 distinct operation kinds over >= 2 encodings including a BDD product and an inclusion with simulation. Distinct: hash of the workload.",
+    "assumptions": COMMON_ASSUMPTIONS + ["every workload honours the documented preconditions (see harness/workload.hh); exceptions are clean rejections", "a hang is not a memory error: timeouts are ignored here (C01/C07/C09 own the verdict-is-returned claim)"],
+}
+
 LEVEL_TEXT = {
     "C01": "Generated-input search with an exact, independently written inclusion oracle: thousands of small automaton pairs per run, each through all 8 selections (+ unprepared operands). Finds wrong verdicts, exceptions, hangs and memory errors on small witnesses; establishes nothing beyond the explored pairs.",
     "C02": "Generated pairs with overlapping/disjoint numbering; result language, semantic meaning of the translation maps, operand immutability and the CLI naming flow judged against reference union/product. Exploration of small automata only.",
